@@ -152,6 +152,13 @@ def decimal_part(ctx):
                             near.append((maxn, start, start + dirn * (kmul * mx + sgn * delta), bool(kmul % 2)))
     if ctx.quick:
         near = rnd_.sample(near, 96)
+    # moves of (much) less than the 1e-9 s slack, in both directions: nothing, or one tiny step in the right direction -- never a
+    # full step and back
+    for maxn in (1, 4):
+        for start in (0.0, 0.1 * 3, -3.25):
+            for delta in (1e-10, 5e-10, 9e-10, 2e-9, 2.0 ** -33):
+                for dirn in (1.0, -1.0):
+                    near.append((maxn, start, start + dirn * delta, dirn > 0))
     fams = [(long_moves, 0.01, "long"), (near, 0.5, "near-multiple")]
     import cppbuild
     for moves, unit_, tag in fams:
